@@ -67,6 +67,22 @@ var outcomes = []string{"success", "ignore", "dropped"}
 var respTypes = []gclGrpc.ResponseType{gclGrpc.ResponseTypeSuccess, gclGrpc.ResponseTypeIgnore, gclGrpc.ResponseTypeDropped}
 var codeChoices = []codes.Code{codes.ResourceExhausted, codes.Unavailable, codes.Aborted, codes.DeadlineExceeded, codes.PermissionDenied}
 
+// exceededErr is what a limit-exceeded classifier returns as its error: a plain error, a gRPC status error carrying a
+// different code than the one the classifier chose, or an error wrapping such a status.  The chosen code must win.
+func exceededErr(r *rand.Rand, chosen codes.Code, msg string) error {
+	other := codeChoices[r.IntN(len(codeChoices))]
+	for other == chosen {
+		other = codeChoices[r.IntN(len(codeChoices))]
+	}
+	switch r.IntN(3) {
+	case 0:
+		return status.Error(other, msg)
+	case 1:
+		return fmt.Errorf("%s: %w", msg, status.Error(other, "inner"))
+	}
+	return errors.New(msg)
+}
+
 func count(ev []string, prefix string) (n int, first int) {
 	first = -1
 	for i, e := range ev {
@@ -180,6 +196,7 @@ func unaryCase(idx int64, r *rand.Rand) {
 	clsOut := r.IntN(3)
 	excCode := codeChoices[r.IntN(len(codeChoices))]
 	excResp := &struct{ Y int }{7}
+	excErr := exceededErr(r, excCode, "custom limit exceeded")
 	cfg := rt.J{"kind": kind, "granted": granted, "with_limiter": useLim, "with_response_classifier": useCls,
 		"with_limit_exceeded_classifier": useExc, "handler_error": fmt.Sprint(handlerErr), "classifier_result": outcomes[clsOut],
 		"exceeded_code": excCode.String()}
@@ -202,7 +219,7 @@ func unaryCase(idx int64, r *rand.Rand) {
 	if useExc {
 		opts = append(opts, gclGrpc.WithLimitExceededResponseClassifier(func(ctx context.Context, method string, req interface{}, l core.Limiter) (interface{}, codes.Code, error) {
 			lg.add("exceeded:main")
-			return excResp, excCode, errors.New("custom limit exceeded")
+			return excResp, excCode, excErr
 		}))
 	}
 	var gotResp interface{}
@@ -314,9 +331,15 @@ func streamCase(idx int64, r *rand.Rand) {
 	useExc := r.IntN(3) != 0
 	clsOut := 0
 	recvCode, sendCode := codeChoices[r.IntN(len(codeChoices))], codeChoices[r.IntN(len(codeChoices))]
+	recvErr, sendErr := exceededErr(r, recvCode, "recv limit exceeded"), exceededErr(r, sendCode, "send limit exceeded")
 	var opts []gclGrpc.StreamInterceptorOption
-	if r.IntN(2) == 0 {
+	switch r.IntN(4) { // names are only used for the default limiters; they must not disturb configured ones
+	case 0:
 		opts = append(opts, gclGrpc.WithStreamRecvName("r"), gclGrpc.WithStreamSendName("s"))
+	case 1:
+		opts = append(opts, gclGrpc.WithStreamSendName("s"))
+	case 2:
+		opts = append(opts, gclGrpc.WithStreamRecvName("r"))
 	}
 	if useRecvL {
 		opts = append(opts, gclGrpc.WithStreamRecvLimiter(recvL))
@@ -336,10 +359,10 @@ func streamCase(idx int64, r *rand.Rand) {
 	if useExc {
 		opts = append(opts, gclGrpc.WithStreamRecvLimitExceededResponseClassifier(func(ctx context.Context, method string, req interface{}, l core.Limiter) (interface{}, codes.Code, error) {
 			lg.add("exceeded:recv")
-			return nil, recvCode, errors.New("recv limit exceeded")
+			return nil, recvCode, recvErr
 		}), gclGrpc.WithStreamSendLimitExceededResponseClassifier(func(ctx context.Context, method string, req interface{}, l core.Limiter) (interface{}, codes.Code, error) {
 			lg.add("exceeded:send")
-			return nil, sendCode, errors.New("send limit exceeded")
+			return nil, sendCode, sendErr
 		}))
 	}
 	sctx := context.Background()
